@@ -230,3 +230,58 @@ contract(T + 'split_csymbol', params={'self': 'Transformer', 'symbol': 'str'}, r
          },
          note='pure_keys: the result is treated as a function of (self, symbol) in specifications, i.e. the prefix lists '
               'of the namespaces are taken as fixed during a scan (assumed)')
+
+
+# ---- pairing functions with types: the longest registered type prefix of an un-prefixed symbol --------------------------
+def boundary(q, s):
+    """q is s itself or a prefix of s that is followed by an underscore"""
+    return q == s or s.startswith(q + '_')
+
+
+def seps_after(s, q):
+    """number of underscores of s behind the prefix q"""
+    return s[len(q):].count('_')
+
+
+def head_of(s, suffix):
+    """what precedes `_suffix` in s (s itself if nothing was split off)"""
+    if s.endswith('_' + suffix) and (suffix != '' or s.endswith('_')):
+        return s[:len(s) - len(suffix) - 1]
+    return s
+
+
+R_ = "uscored.rsplit('_', count)"
+IDX = 'seps_after(uscored, Q)'
+RSPLIT_LEMMAS = [
+    # facts about str.rsplit / str.count / str.join, validated natively by contracts/extra/c04_lemmas.py (bounded)
+    "implies(boundary(Q, uscored), uscored.rsplit('_', %s)[0] == Q and len(uscored.rsplit('_', %s)) == %s + 1)" % (IDX, IDX, IDX),
+    "implies(count >= 1 and len(%s) == len(uscored.rsplit('_', count - 1)) and boundary(Q, uscored), %s < count)" % (R_, IDX),
+    "implies(boundary(Q, uscored) and len(%s) == count + 1, (%s < count) == (len(Q) > len(%s[0])))" % (R_, IDX, R_),
+    "implies(boundary(Q, uscored) and len(%s) == count + 1, (%s == count) == (Q == %s[0]))" % (R_, IDX, R_),
+    "implies(len(%s) > 1, uscored == %s[0] + '_' + '_'.join(%s[1:]))" % (R_, R_, R_),
+    "implies(len(%s) == 1, uscored == %s[0])" % (R_, R_),
+    "implies(len(%s) <= count, count >= 1 and len(%s) == len(uscored.rsplit('_', count - 1)))" % (R_, R_),
+]
+contract(MT + '_split_uscored_by_type', params={'self': 'MainTransformer', 'uscored': 'str'}, returns='tuple[Node,str]?',
+         props=('C04',), ghost={'Q': 'str'}, split_returns=True,
+         loops={1: {'index': 'count', 'modifies': [], 'assume': RSPLIT_LEMMAS,
+                    'var_types': {'count': 'int', 'prev_split_count': 'int', 'components': 'list[str]', 'type_string': 'str',
+                                  'node': 'Node?'},
+                    'invariant': [
+                        'count >= 0',
+                        "implies(count == 0, prev_split_count == -1)",
+                        "implies(count >= 1, prev_split_count == len(uscored.rsplit('_', count - 1)) and prev_split_count == count)",
+                        "implies(boundary(Q, uscored) and %s < count, not self._uscore_type_names.get(Q))" % IDX,
+                    ]}},
+         ensures={
+             'C04.pairing.no_registered_type_prefix_means_none':
+                 "implies(result is None and boundary(Q, uscored), not self._uscore_type_names.get(Q))",
+             'C04.pairing.split_at_a_registered_type_prefix':
+                 "implies(result is not None and not uscored.endswith('_'), "
+                 "boundary(head_of(uscored, result[1]), uscored) and "
+                 "result[0] is self._uscore_type_names.get(head_of(uscored, result[1])) and bool(result[0]))",
+             'C04.pairing.longest_registered_type_prefix_wins':
+                 "implies(result is not None and not uscored.endswith('_') and boundary(Q, uscored) and "
+                 "len(Q) > len(head_of(uscored, result[1])), not self._uscore_type_names.get(Q))",
+         },
+         note='candidates are the prefixes of `uscored` that end in front of an underscore (and `uscored` itself), longest first')
